@@ -535,6 +535,9 @@ impl<'a> GeneratorState<'a> {
                 } else if *v == 8 {
                     return Err(self.compiler_state.syntax_error("Operation too complex for the compiler. Please use an intermediate variable", pos));
                 } else {
+                    // The result is 0 whatever was loaded: give the accumulator back
+                    if acc_in_use { self.sasm(PLA)?; }
+                    self.acc_in_use = acc_in_use;
                     return Ok(ExprType::Immediate(0));
                 }
             },
